@@ -74,17 +74,17 @@ type View struct {
 	Objs []Pair `json:"objs"`
 }
 type Obs struct {
-	Mon        *MonitorObs `json:"mon,omitempty"`
+	Mon        *MonitorObs  `json:"mon,omitempty"`
 	Op         *opsim.Trace `json:"op,omitempty"`
-	Hist       *HistObs    `json:"hist,omitempty"`
-	Out        []Ev        `json:"out"`
-	Views      []View      `json:"views"`
-	Cache      []Pair      `json:"cache"`
-	Enabled    bool        `json:"enabled"`
-	BufLen     int         `json:"buf_len"`
-	OutBeforeE int         `json:"out_before_e"`
-	Delivered  int         `json:"delivered"` // changes whose handler has returned
-	Note       string      `json:"note,omitempty"`
+	Hist       *HistObs     `json:"hist,omitempty"`
+	Out        []Ev         `json:"out"`
+	Views      []View       `json:"views"`
+	Cache      []Pair       `json:"cache"`
+	Enabled    bool         `json:"enabled"`
+	BufLen     int          `json:"buf_len"`
+	OutBeforeE int          `json:"out_before_e"`
+	Delivered  int          `json:"delivered"` // changes whose handler has returned
+	Note       string       `json:"note,omitempty"`
 }
 
 func object(c Change) *unstructured.Unstructured {
@@ -654,6 +654,20 @@ func Gen(r *core.Rng, tier string) ([]core.In[Input], bool) {
 		if brought {
 			st = "hist-brought-along"
 		}
+		if !brought && i%2 == 1 {
+			// a companion binding with static namespaces in the same process
+			comp := CompIn{Types: allTypes[hr.Intn(len(allTypes)-1)], Filter: hr.Chance(50), First: hr.Chance(50), SameDebug: hr.Chance(50)}
+			for n := 1; n <= 3; n++ {
+				if hr.Chance(60) {
+					comp.Nss = append(comp.Nss, n)
+				}
+			}
+			if len(comp.Nss) == 0 {
+				comp.Nss = []int{1 + hr.Intn(3)}
+			}
+			hin.Comp = &comp
+			st = "hist-companion"
+		}
 		hists = append(hists, core.In[Input]{Input: Input{Hist: &hin, Ops: hops}, Stream: st})
 	}
 	if tier == "thorough" {
@@ -675,7 +689,7 @@ func Gen(r *core.Rng, tier string) ([]core.In[Input], bool) {
 }
 
 var Driver = core.Driver[Input, Obs]{
-	Spec: core.Spec{Property: "C01", Imports: []string{"Op_Model", "Op_Corr", "C01_Model", "C01_Spec", "C01_Monitor", "C01_Hist", "C01_HistSpec", "C01_Corr"}, Corr: "C01_Corr", Triggers: []string{"F23", "F24"}, ShrinkKey: "ops",
-		Rule: "a real resourceInformer (locked, not connected to a cluster) driven by the informer callback (per-object histories over 3 objects x 4 states with re-deliveries, deletes, re-creations), Synchronization reads (repeated), foreign readers and the unlock, interleaved deterministically at lock granularity through verifpoint marks; every subset family of event types; 10% of the schedules let a foreign reader read a locked binding (trigger F23); non-trivial = >=2 changes, a Synchronization read, the unlock and >=1 delivered event; distinct = distinct (types, changes, schedule); class hist: a real monitor with namespace.labelSelector (real namespace informer, fake cluster) after Start and the unlock follows histories of object set/delete and namespace create/relabel/delete over 3 namespaces x 3 names (start-up namespaces and late ones stop matching and match again; event-type subsets, jqFilter, nameSelector), the KubeEvents handed over are compared per object (client-go's DeltaFIFO fixes no other order) with C01_Hist and judged per object by C01_HistSpec.HP; one history in 8 lets namespaces bring objects along (trigger F24); non-trivial there = >=1 namespace operation, >=2 object changes, >=1 event"},
+	Spec: core.Spec{Property: "C01", Imports: []string{"Op_Model", "Op_Corr", "C01_Model", "C01_Spec", "C01_Monitor", "C01_Hist", "C01_HistSpec", "C01_Comp", "C01_CompSpec", "C01_Corr"}, Corr: "C01_Corr", Triggers: []string{"F23", "F24"}, ShrinkKey: "ops",
+		Rule: "a real resourceInformer (locked, not connected to a cluster) driven by the informer callback (per-object histories over 3 objects x 4 states with re-deliveries, deletes, re-creations), Synchronization reads (repeated), foreign readers and the unlock, interleaved deterministically at lock granularity through verifpoint marks; every subset family of event types; 10% of the schedules let a foreign reader read a locked binding (trigger F23); non-trivial = >=2 changes, a Synchronization read, the unlock and >=1 delivered event; distinct = distinct (types, changes, schedule); class hist: a real monitor with namespace.labelSelector (real namespace informer, fake cluster) after Start and the unlock follows histories of object set/delete and namespace create/relabel/delete over 3 namespaces x 3 names (start-up namespaces and late ones stop matching and match again; event-type subsets, jqFilter, nameSelector), the KubeEvents handed over are compared per object (client-go's DeltaFIFO fixes no other order) with C01_Hist and judged per object by C01_HistSpec.HP; one history in 8 lets namespaces bring objects along (trigger F24); every second history runs beside a companion binding of the same kind and names with static namespaces (its monitor created before or after, same or different debug name; its informers share the first binding's shared informers of the factory store), whose events are compared with C01_Comp and judged by C01_CompSpec.CP; non-trivial there = >=1 namespace operation, >=2 object changes, >=1 event"},
 	Gen: Gen, Run: Run, Render: Render, PerShard: 400, Workers: 8, CaseTimout: 30 * time.Second,
 }
